@@ -26,7 +26,11 @@ def run(ctx):
             ctx.crash_probe([h, "lu", "700", "18"], "lu-crash-probe", start_re=r"^L\b") or ctx.crash_probe([h2, "lu", "700", "18"], "lu-ndebug-crash-probe", start_re=r"^L\b")
     # a copied / moved / re-assigned solver is a solver: the object histories of the linear-algebra containers (harness shared with C15)
     ctx.also_props = ("C15",)
-    ctx.pipe([h, "objects", "400" if ctx.tier == "quick" else "2500", "14"], "objects", label="solver-object-histories")
+    nobj = "400" if ctx.tier == "quick" else "2500"
+    ctx.pipe([h, "objects", nobj, "14"], "objects", label="solver-object-histories")
+    if any(b[0].startswith("harness solver-object-histories exited") for b in ctx.broken):
+        # the real classes ended the process inside a history (e.g. the sparse LU's exit branch on a corrupted factorisation): name it
+        ctx.crash_probe([h, "objects", nobj, "14"], "solver-object-histories-crash", start_re=r"^H\b")
     ctx.also_props = ()
     # known finding F7: the absolute pivot test + std::exit
     ctx.pipe([h, "lu-exit"], "lu", label="lu-exit-probe")
